@@ -4,12 +4,16 @@
 package main
 
 import (
+	"fmt"
 	"go/ast"
 	"strings"
 
 	"elaverif/extract/ex"
 
+	ctypes "github.com/elastos/Elastos.ELA/core/types/common"
+	"github.com/elastos/Elastos.ELA/core/types/payload"
 	"github.com/elastos/Elastos.ELA/elanet/bloom"
+	"github.com/elastos/Elastos.ELA/elanet/filter"
 	"github.com/elastos/Elastos.ELA/p2p/msg"
 )
 
@@ -98,5 +102,107 @@ func main() {
 		return true
 	})
 	ex.DefStrList("filterLoadDeserialize", des)
+
+	// ---- the layer above the bloom filter
+	// filter type constants and the server's dispatch switch
+	fmt.Printf("def filterTypes : List (String × Nat) := [(\"FTBloom\", %d), (\"FTDPOS\", %d), (\"FTNexTTurnDPOSInfo\", %d), (\"FTCustomID\", %d), (\"FTUpgrade\", %d), (\"FTReturnSidechainDepositCoinFilter\", %d)]\n",
+		filter.FTBloom, filter.FTDPOS, filter.FTNexTTurnDPOSInfo, filter.FTCustomID, filter.FTUpgrade, filter.FTReturnSidechainDepositCoinFilter)
+	srv := ex.Parse("elanet/server.go")
+	var disp []string
+	ast.Inspect(srv.MustFunc("newServerPeer").Body, func(n ast.Node) bool {
+		if sw, ok := n.(*ast.SwitchStmt); ok && sw.Tag != nil && srv.Src(sw.Tag) == "typ" {
+			for _, c := range sw.Body.List {
+				cc := c.(*ast.CaseClause)
+				var body []string
+				for _, b := range cc.Body {
+					body = append(body, srv.Src(b))
+				}
+				var cs []string
+				for _, e := range cc.List {
+					cs = append(cs, srv.Src(e))
+				}
+				disp = append(disp, strings.Join(cs, ",")+" => "+strings.Join(body, "; "))
+			}
+			return false
+		}
+		return true
+	})
+	ex.DefStrList("serverDispatch", disp)
+	ff := ex.Parse("elanet/filter/filter.go")
+	var loadStmts []string
+	for _, st := range ff.MustFunc("Filter.load").Body.List {
+		loadStmts = append(loadStmts, ff.Src(st))
+	}
+	ex.DefStrList("filterLoad", loadStmts)
+	// the wrappers: what MatchConfirmed / MatchUnconfirmed / Load / Add return
+	fmt.Print("def wrappers : List (String × String × String × String × String) := [")
+	for i, w := range [][2]string{{"sidefilter/sidefilter.go", "Filter"}, {"nextturndposfilter/nextturndposfilter.go", "NextTurnDPOSInfoFilter"},
+		{"customidfilter/customidfilter.go", "CustomIdFilter"}, {"upgradefilter/upgradefilter.go", "UpgradeFilter"},
+		{"returnsidechaindepositcoinfilter/returnsidechaindepositecoinfilter.go", "ReturnSidechainDepositCoinFilter"}} {
+		wf := ex.Parse("elanet/filter/" + w[0])
+		body := func(m string) string {
+			var parts []string
+			for _, st := range wf.MustFunc(w[1] + "." + m).Body.List {
+				parts = append(parts, wf.Src(st))
+			}
+			return strings.Join(parts, "; ")
+		}
+		if i > 0 {
+			fmt.Print(",\n  ")
+		}
+		fmt.Printf("(%s, %s, %s, %s, %s)", ex.LeanStr(w[1]), ex.LeanStr(body("Load")), ex.LeanStr(body("Add")), ex.LeanStr(body("MatchConfirmed")), ex.LeanStr(body("MatchUnconfirmed")))
+	}
+	fmt.Println("]")
+	// State.IsDPOSTransaction: the unconditional case list; the tx-type predicates
+	st := ex.Parse("dpos/state/state.go")
+	var dposCases []string
+	ast.Inspect(st.MustFunc("State.IsDPOSTransaction").Body, func(n ast.Node) bool {
+		if cc, ok := n.(*ast.CaseClause); ok && len(dposCases) == 0 {
+			for _, e := range cc.List {
+				dposCases = append(dposCases, st.Src(e))
+			}
+			return false
+		}
+		return true
+	})
+	ex.DefStrList("isDPOSTransactionFirstCase", dposCases)
+	txf := ex.Parse("core/transaction/transaction.go")
+	var preds []string
+	for _, m := range []string{"IsNextTurnDPOSInfoTx", "IsCustomIDResultTx", "IsCRCProposalTx", "IsRevertToPOW", "IsRevertToDPOS", "IsReturnSideChainDepositCoinTx", "IsCustomIDRelatedTx", "IsSideChainUpgradeTx"} {
+		var parts []string
+		for _, b := range txf.MustFunc("BaseTransaction." + m).Body.List {
+			parts = append(parts, txf.Src(b))
+		}
+		preds = append(preds, m+": "+strings.Join(parts, "; "))
+	}
+	ex.DefStrList("txPredicates", preds)
+	fmt.Printf("def txTypeValues : List (String × Nat) := [(\"TransferAsset\", %d), (\"RegisterProducer\", %d), (\"CancelProducer\", %d), (\"UpdateProducer\", %d), (\"ReturnDepositCoin\", %d), (\"ActivateProducer\", %d), (\"IllegalProposalEvidence\", %d), (\"IllegalVoteEvidence\", %d), (\"IllegalBlockEvidence\", %d), (\"IllegalSidechainEvidence\", %d), (\"InactiveArbitrators\", %d), (\"NextTurnDPOSInfo\", %d), (\"ProposalResult\", %d), (\"CRCProposal\", %d), (\"RevertToPOW\", %d), (\"RevertToDPOS\", %d), (\"ReturnSideChainDepositCoin\", %d)]\n",
+		ctypes.TransferAsset, ctypes.RegisterProducer, ctypes.CancelProducer, ctypes.UpdateProducer, ctypes.ReturnDepositCoin, ctypes.ActivateProducer,
+		ctypes.IllegalProposalEvidence, ctypes.IllegalVoteEvidence, ctypes.IllegalBlockEvidence, ctypes.IllegalSidechainEvidence, ctypes.InactiveArbitrators,
+		ctypes.NextTurnDPOSInfo, ctypes.ProposalResult, ctypes.CRCProposal, ctypes.RevertToPOW, ctypes.RevertToDPOS, ctypes.ReturnSideChainDepositCoin)
+	fmt.Printf("def proposalTypeValues : List (String × Nat) := [(\"ReserveCustomID\", %d), (\"ReceiveCustomID\", %d), (\"ChangeCustomIDFee\", %d), (\"MinUpgradeProposalType\", %d), (\"MaxUpgradeProposalType\", %d)]\n",
+		payload.ReserveCustomID, payload.ReceiveCustomID, payload.ChangeCustomIDFee, payload.MinUpgradeProposalType, payload.MaxUpgradeProposalType)
+	// what matchTxAndUpdate reads of a transaction: every method called on txn / its elements
+	var acc []string
+	seen := map[string]bool{}
+	ast.Inspect(f.MustFunc("Filter.matchTxAndUpdate").Body, func(n ast.Node) bool {
+		if se, ok := n.(*ast.SelectorExpr); ok {
+			if id, ok := se.X.(*ast.Ident); ok && (id.Name == "txn" || id.Name == "txOut" || id.Name == "txIn") {
+				k := id.Name + "." + se.Sel.Name
+				if !seen[k] {
+					seen[k] = true
+					acc = append(acc, k)
+				}
+			}
+		}
+		return true
+	})
+	ex.DefStrList("matchTxReads", acc)
+	// size limits of the two filter messages
+	ex.DefNat("filterLoadMaxLength", (&msg.FilterLoad{}).MaxLength())
+	ex.DefNat("filterAddMaxLength", (&msg.FilterAdd{}).MaxLength())
+	ex.DefNat("maxFilterAddDataSize", msg.MaxFilterAddDataSize)
+	ex.DefNat("txFilterLoadMaxLength", (&msg.TxFilterLoad{}).MaxLength())
+	ex.DefNat("maxTxFilterLoadDataSize", msg.MaxTxFilterLoadDataSize)
 	ex.Footer("C39")
 }
